@@ -180,6 +180,10 @@ fn check_positions(c: &OCfg, o: &OPre, f: &FuturesOrderedBounded<Fut>, shift: us
                     offset_of(pos, out) == o.off[id].wrapping_sub(shift),
                     "C04:a running future changed its place in the queue"
                 );
+                vassert!(
+                    offset_of(pos, out) == o.off[id].wrapping_sub(shift),
+                    "C02:ordered-collection invariant broken (stored position of a running future): its output will be lost or duplicated"
+                );
                 count += 1;
             }
         }
@@ -196,6 +200,7 @@ fn check_positions(c: &OCfg, o: &OPre, f: &FuturesOrderedBounded<Fut>, shift: us
                 let off = offset_of(pos, out);
                 if tok >= PARK {
                     vassert!(off == ((tok - PARK) as usize).wrapping_sub(shift), "C04:a parked output changed its place in the queue");
+                    vassert!(off == ((tok - PARK) as usize).wrapping_sub(shift), "C02:ordered-collection invariant broken (stored position of a parked output): outputs will be lost or never released");
                 } else {
                     // completed during this call, out of turn
                     let id = tok as usize;
